@@ -7,5 +7,9 @@ REGISTRY = {
                     "for every legal signature up to MaxP parameters x 5 callable kinds and emits each signature as a scenario; all of them are run through the "
                     "real CLI and the parsed stub/JSON parameter lists are compared with the spec's expected facts inside TLC (C06_Trace).",
             "ref": "DESIGN.md section 7 C06", "note": BASE_NOTE, "technique": TECH},
+    "C05": {"text": "spec/PyTypes.tla defines the meaning Canon(t) of every annotation term (sets of alternatives, so equivalent spellings coincide) and ObsCanon of a stub type; "
+                    "TLC checks compositionality/idempotence laws for every term of the universe (depth 1 full alphabet, depth 2 reduced; thorough: larger) and emits the terms; each term is placed in "
+                    "five positions of a real package, run through the CLI, and C05_Trace judges ObsCanon(stub type) = Canon(annotation) per position.",
+            "ref": "DESIGN.md section 7 C05", "note": BASE_NOTE, "technique": TECH},
 }
 NOT_APPLICABLE = {}
